@@ -970,7 +970,7 @@ Lemma copy_like_ss h a b ka pba da kb pbb db h' a' e :
   copy_like pk h a b = (h', a', e) ->
   e = None /\ a' = a /\ rdphase h' pba = rdphase h pbb /\ rdtc h' (tc a) = rdtc h (tc b) /\
   (forall c, (flow_of (chems pk ka) (rdvec h' da) c == flow_of (chems pk kb) (rdvec h db) c)%Q) /\
-  obs h' b = obs h b.
+  obs h' b = obs h b /\ nth_error h' (imol a) = Some (CIdxC ka pba da).
 Proof.
   intros W SA SB D Hi Hb VP MS CL.
   destruct (footprint_chem _ _ _ _ _ W Hi) as [Kpa Kda]. destruct (footprint_chem _ _ _ _ _ W Hb) as [Kpb Kdb].
@@ -1017,7 +1017,7 @@ Proof.
   destruct SHAPE as (v & FL & -> & -> & ->).
   split; auto. split; auto.
   assert (L1 : length (wr h da (CVec v)) = length h) by apply wr_length.
-  split; [|split; [|split]].
+  split; [|split; [|split; [|split]]].
   - unfold rdphase. rewrite wr_other by auto. rewrite wr_same by (rewrite L1; auto). reflexivity.
   - unfold rdtc at 1. rewrite wr_same by (rewrite !wr_length; auto). unfold rdtc. rewrite Htb. reflexivity.
   - intros c. unfold rdvec at 1. rewrite wr_other by auto. rewrite wr_other by auto. rewrite wr_same by auto. apply FL.
@@ -1026,6 +1026,11 @@ Proof.
     destruct (stream_stable h _ (footprint h a) b [] W SB FR) as [_ OB].
     + intros r Hr Ha. exact (D r Ha Hr).
     + apply obs_of_observe. exact OB.
+  - assert (Ki : is_kind h (imol a) 4) by (eexists; split; [exact Hi|reflexivity]).
+    assert (X1 : tc a <> imol a). { intros E. rewrite E in Kta. pose proof (is_kind_fun _ _ _ _ Kta Ki). lia. }
+    assert (X2 : pba <> imol a). { intros E. rewrite E in Kpa. pose proof (is_kind_fun _ _ _ _ Kpa Ki). lia. }
+    assert (X3 : da <> imol a). { intros E. rewrite E in Kda. pose proof (is_kind_fun _ _ _ _ Kda Ki). lia. }
+    rewrite !wr_other by auto. exact Hi.
 Qed.
 
 (* Stream.copy_like(MultiStream holding one phase): the same, through the view of that phase (incl. T and P) *)
@@ -1037,7 +1042,7 @@ Lemma copy_like_s_m1 h a b ka pba da kb p db rb h' a' e :
   copy_like pk h a b = (h', a', e) ->
   e = None /\ a' = a /\ rdphase h' pba = p /\ rdtc h' (tc a) = rdtc h (tc b) /\
   (forall c, (flow_of (chems pk ka) (rdvec h' da) c == flow_of (chems pk kb) (rdvec h rb) c)%Q) /\
-  obs h' b = obs h b.
+  obs h' b = obs h b /\ nth_error h' (imol a) = Some (CIdxC ka pba da).
 Proof.
   intros W SA SB D Hi Hb RB VP MS CL.
   destruct (footprint_chem _ _ _ _ _ W Hi) as [Kpa Kda]. destruct (footprint_multi _ _ _ _ _ W Hb) as [Kdb Krb].
@@ -1083,7 +1088,7 @@ Proof.
   destruct SHAPE as (v & FL & -> & -> & ->).
   split; auto. split; auto.
   assert (L1 : length (wr h da (CVec v)) = length h) by apply wr_length.
-  split; [|split; [|split]].
+  split; [|split; [|split; [|split]]].
   - unfold rdphase. rewrite wr_other by auto. rewrite wr_same by (rewrite L1; auto). reflexivity.
   - unfold rdtc at 1. rewrite wr_same by (rewrite !wr_length; auto). unfold rdtc. rewrite Htb. reflexivity.
   - intros c. unfold rdvec at 1. rewrite wr_other by auto. rewrite wr_other by auto. rewrite wr_same by auto. apply FL.
@@ -1092,6 +1097,11 @@ Proof.
     destruct (stream_stable h _ (footprint h a) b [] W SB FR) as [_ OB].
     + intros r Hr Ha. exact (D r Ha Hr).
     + apply obs_of_observe. exact OB.
+  - assert (Ki : is_kind h (imol a) 4) by (eexists; split; [exact Hi|reflexivity]).
+    assert (X1 : tc a <> imol a). { intros E. rewrite E in Kta. pose proof (is_kind_fun _ _ _ _ Kta Ki). lia. }
+    assert (X2 : pba <> imol a). { intros E. rewrite E in Kpa. pose proof (is_kind_fun _ _ _ _ Kpa Ki). lia. }
+    assert (X3 : da <> imol a). { intros E. rewrite E in Kda. pose proof (is_kind_fun _ _ _ _ Kda Ki). lia. }
+    rewrite !wr_other by auto. exact Hi.
 Qed.
 End CopyLike.
 
